@@ -28,6 +28,13 @@ CLAIMS = {
             "twin calls the same manager operations and writes the same fields as its original, and no unbudgeted "
             "mutating operation is reachable from a budgeted one. Exactness, canonicity and model counts are not decided.",
             "MIR dominance/pairing, sibling (twin) skeleton comparison, call-graph closure"),
+    "C05": ("DESIGN.md §4 C05",
+            "Decides for every rule set at once that each evaluation strategy consults every semantic component of a rule "
+            "(field-consultation closure over the call graph), covers every premise count and every conclusion (no silent "
+            "default arm, no truncating adaptor), that the candidate-rule index is probed for the wildcard bucket it is "
+            "written with, and that the fixpoint drivers keep known_facts / index / all_facts in lock-step and only stop "
+            "on an empty round. Seven confirmed defects are listed as known findings. Least-fixpoint equality is not decided.",
+            "MIR field-consultation closure (T-COVER), switch-arm analysis, lock-step paths, controlling conditions"),
 }
 
 NA = {
